@@ -79,7 +79,7 @@ def w_datetime_awareness():
 
 
 REGIONS = {
-    'dns-name-empty-label': (('DnsNameUncompressed',), _empty_label),
+    'dns-name-empty-label': (('DnsNameUncompressed',), _empty_label, ('K3',)),
     'tpkt-version-not-3': (('TPKT',), _tpkt),
     'padding-negative-length': (('TlsExtensionPadding',), _padding),
     'openvpn-remote-session-id-without-acks': (('OpenVpnPacketAckV1', 'OpenVpnPacketControlV1', 'OpenVpnPacketHardResetServerV2'), _openvpn),
